@@ -137,7 +137,7 @@ func newFkScenario(w fkWiring, ownerIds, widgetIds []string, label string) *fkSc
 	}
 	sc.widgets.AddIdSymbol("id", ast.NodeTypeString)
 	sc.widgets.AddSymbol("label", ast.NodeTypeString)
-	ownerSym := sc.widgets.AddFkSymbol("owner", target)
+	ownerSym := sc.widgets.AddFkSymbolWithKey("ownedBy", "owner", target) // the symbol name differs from the stored key
 	backRef := target.AddFkSetSymbol("widgets", sc.widgets)
 	switch w {
 	case fkIdxNullable, fkSelfIdxNullable:
